@@ -24,10 +24,16 @@
     correspondence reports on the unchanged tree (docs/C14.md).
   * `compile_prod_upto5`, `sim_column_upto5`: product of the emitted matrices = Uref, simulation of a
     basis state = column of Uref.
-  * unitarity is NOT proved here (`C14_unitary_full` keeps the statement visible); every emitted
-    matrix is checked numerically (M·M† ≈ I) by the tie.
+  * unitarity (M·M† = I, with any semiring homomorphism `c` as conjugation): `embed_preserves_unitary`,
+    `product_preserves_unitary`, `uref_unitary` hold for EVERY n; `compile_unitary_upto5` (every emitted
+    matrix and their product are unitary) inherits the bound n ≤ 5 only from the certificate.  Over ℂ
+    (Mathlib's complex numbers) every gate of the supported set is exactly unitary
+    (`gate_set_unitary`, parametric gates from cos² + sin² = 1), hence
+    `compile_unitary_complex_upto5`.
 -/
 import BMV.Proofs.Quantum
+import BMV.Proofs.QuantumUnitary
+import BMV.Proofs.QuantumGates
 namespace BMV.Props.C14
 open BMV.Quantum MulOps Ops
 
@@ -162,16 +168,86 @@ example : (compileLayers ([⟨fun r c => r + 2 * c + 1, [2, 0]⟩, ⟨fun r c =>
     ⟨fun r c => r * c + 1, [0]⟩] : List (Gate Nat))).map (·.map (·.args)) = [[[2, 0], [1, 3]], [[0]]] := by
   decide
 
-/-- unitarity: statement kept visible, NOT proved in Lean (checked numerically per emitted matrix by
-    the tie: M·M† ≈ I within 1e-5).  It would follow from `layer_eq_embed_upto5` and the unitarity of
-    every `embed n g` for unitary `g` over ℂ. -/
-def C14_unitary_full : Prop :=
-  ∀ (R : Type) [Ops R] [Lawful R] (conj : R → R),
-    (∀ a b, conj (mul a b) = mul (conj a) (conj b)) → (∀ a b, conj (add a b) = add (conj a) (conj b)) →
-    conj one = one → conj zero = zero →
-    ∀ (n : Nat) (gs : List (Gate R)), ValidLayer n (gs.map (·.args)) →
-    (∀ g ∈ gs, EqOn (2 ^ g.args.length) (mmul (2 ^ g.args.length) g.m (fun i j => conj (g.m j i))) idMat) →
-    ∀ M, layer false n gs = some M →
-      EqOn (2 ^ n) (mmul (2 ^ n) M.e (fun i j => conj (M.e j i))) idMat
+/-! ### unitarity: M · M† = I on the range, `c` any semiring homomorphism (complex conjugation) -/
+
+/-- embedding a unitary gate on distinct declared qubits gives a unitary matrix — EVERY n, every arity -/
+theorem embed_preserves_unitary {R : Type} [Ops R] [Lawful R] {c : R → R} (hc : ConjHom c) (n : Nat)
+    (g : Gate R) (hlt : ∀ x ∈ g.args, x < n) (hnd : g.args.Nodup)
+    (hu : IsUnitary (2 ^ g.args.length) c g.m) : IsUnitary (2 ^ n) c (embed n g) :=
+  embed_unitary hc n g hlt hnd hu
+
+/-- products of unitary matrices are unitary; so is the identity; unitarity only looks at the range -/
+theorem product_preserves_unitary {R : Type} [Ops R] [Lawful R] {c : R → R} (hc : ConjHom c) (N : Nat)
+    {A B : Mat R} (hA : IsUnitary N c A) (hB : IsUnitary N c B) :
+    IsUnitary N c (mmul N A B) ∧ IsUnitary N c (idMat : Mat R) :=
+  ⟨isUnitary_mmul hc N hA hB, isUnitary_id hc N⟩
+
+/-- the circuit's unitary `Uref` is unitary — EVERY n -/
+theorem uref_unitary {R : Type} [Ops R] [Lawful R] {c : R → R} (hc : ConjHom c) (n : Nat)
+    (gs : List (Gate R)) (hg : ∀ g ∈ gs, UnitaryGate n c g) : IsUnitary (2 ^ n) c (Uref n gs) :=
+  Uref_unitary hc n gs (fun g h => ⟨(hg g h).1.2.1, (hg g h).1.2.2, (hg g h).2⟩)
+
+/-- **`compile_unitary_upto5`**: for 1 ≤ n ≤ 5 and every circuit of unitary gates (arity 1 or 2, distinct
+    declared qubits), every matrix the compiler emits is unitary, and so is their product.
+    Only the certificate behind `layer_eq_embed_upto5` is bounded. -/
+theorem compile_unitary_upto5 {R : Type} [Ops R] [Lawful R] {c : R → R} (hc : ConjHom c) (n : Nat)
+    (h1 : 1 ≤ n) (h5 : n ≤ 5) (circ : List (Gate R)) (hg : ∀ g ∈ circ, UnitaryGate n c g) :
+    ∃ Ms, compile false n circ = some Ms ∧ (∀ M ∈ Ms, M.dim = 2 ^ n ∧ IsUnitary (2 ^ n) c M.e) ∧
+      IsUnitary (2 ^ n) c (prodMats (2 ^ n) (Ms.map (·.e))) := by
+  have hok : ∀ g ∈ circ, OkGate n g := fun g h => (hg g h).1
+  obtain ⟨Ms, hMs, hdims, _⟩ := compile_prod_upto5 n h1 h5 circ hok
+  obtain ⟨hvalid, hflat⟩ := compileLayers_spec n circ hok
+  have hall : ∀ M ∈ Ms, IsUnitary (2 ^ n) c M.e := by
+    intro M hM
+    obtain ⟨l, hl, hlayer⟩ := compileMats_mem n (compileLayers circ) Ms hMs M hM
+    obtain ⟨M', hM', _, heq⟩ := layer_eq_embed_upto5 n h1 h5 l (hvalid l hl)
+    rw [hlayer] at hM'
+    cases hM'
+    refine isUnitary_congr _ heq (uref_unitary hc n l ?_)
+    intro g hgl
+    apply hg
+    rw [← hflat]
+    exact List.mem_flatten.mpr ⟨l, hl, hgl⟩
+  refine ⟨Ms, hMs, fun M hM => ⟨hdims M hM, hall M hM⟩, ?_⟩
+  apply prodMats_unitary hc
+  intro m hm
+  obtain ⟨M, hM, rfl⟩ := List.mem_map.mp hm
+  exact hall M hM
+
+/-- **every gate of the supported set {h,x,y,z,s,t,sx,p,rx,ry,rz,r,cx,cz,swap,iswap,dcnot} is exactly
+    unitary over ℂ**, for every angle (`Kind.mat`: the textbook closed forms; in the bmqsim dialect
+    `p` = S and `r θ` = phase shift; rx/ry/rz/r/t from cos² + sin² = 1, h from (1/√2)²·2 = 1) -/
+theorem gate_set_unitary (k : Kind) : IsUnitary (2 ^ k.arity) (starRingEnd ℂ) k.mat :=
+  kind_unitary k
+
+/-- **`compile_unitary_complex_upto5`**: over ℂ, for 1 ≤ n ≤ 5, every circuit over the supported gate
+    set with distinct declared qubit arguments (adjacent or not, either order): every emitted matrix
+    is unitary and their product — which is `Uref` by `compile_prod_upto5` — is unitary. -/
+theorem compile_unitary_complex_upto5 (n : Nat) (h1 : 1 ≤ n) (h5 : n ≤ 5)
+    (circ : List (Kind × List Nat))
+    (hok : ∀ ka ∈ circ, ka.2.length = ka.1.arity ∧ (∀ x ∈ ka.2, x < n) ∧ ka.2.Nodup) :
+    ∃ Ms, compile false n (circ.map fun ka => ka.1.gate ka.2) = some Ms ∧
+      (∀ M ∈ Ms, M.dim = 2 ^ n ∧ IsUnitary (2 ^ n) (starRingEnd ℂ) M.e) ∧
+      IsUnitary (2 ^ n) (starRingEnd ℂ) (prodMats (2 ^ n) (Ms.map (·.e))) := by
+  apply compile_unitary_upto5 conjHomComplex n h1 h5
+  intro g hg
+  obtain ⟨ka, hka, rfl⟩ := List.mem_map.mp hg
+  obtain ⟨hlen, hlt, hnd⟩ := hok ka hka
+  refine ⟨⟨?_, hlt, hnd⟩, ?_⟩
+  · show ka.2.length = 1 ∨ ka.2.length = 2
+    rw [hlen]
+    cases ka.1 <;> simp [Kind.arity]
+  · show IsUnitary (2 ^ ka.2.length) _ ka.1.mat
+    rw [hlen]
+    exact kind_unitary ka.1
+
+/-- non-vacuity: a concrete circuit over ℂ (reversed non-adjacent cx, two 2-qubit gates in one layer,
+    parametric gates) meets the hypotheses of `compile_unitary_complex_upto5` -/
+example : ∀ ka ∈ ([(Kind.h, [0]), (Kind.cx, [3, 0]), (Kind.iswap, [1, 2]), (Kind.rz 0.7, [2]),
+      (Kind.rx 1.1, [3])] : List (Kind × List Nat)),
+    ka.2.length = ka.1.arity ∧ (∀ x ∈ ka.2, x < 4) ∧ ka.2.Nodup := by
+  intro ka h
+  simp only [List.mem_cons, List.not_mem_nil, or_false] at h
+  rcases h with h | h | h | h | h <;> subst h <;> exact ⟨rfl, by decide, by decide⟩
 
 end BMV.Props.C14
